@@ -195,6 +195,12 @@ class ODataLexer(Lexer):
     @_(r"(?:true|false)" + _NOT_IDENTIFIER)
     def BOOLEAN(self, t):
         ":meta private:"
+        if t.value.lower() not in ("true", "false"):
+            # Case-insensitive matching also accepts non-ASCII case variants
+            # (`fal\u017fe` with a long s): that is a field name, not a boolean.
+            t.type = "ODATA_IDENTIFIER"
+            t.value = ast.Identifier(t.value)
+            return t
         t.value = ast.Boolean(t.value)
         return t
 
